@@ -1,42 +1,16 @@
 // C17 — Response::send, Content::Stream branch: the chunk framing of server-sent events.
-// Contract (harness contract on the real async fn, the framing is an inline block of it):
-//   for a stream yielding the messages m_1..m_n, the bytes written after the response head are a valid chunked body
-//   (hex size CRLF data CRLF)* 0 CRLF CRLF whose de-chunked content, read by an event-stream parser written from the
-//   WHATWG algorithm (lines end in CRLF, LF or CR; `data` fields joined by LF; dispatch on an empty line), is exactly
-//   normalise(m_1)..normalise(m_n) in order (normalise: CRLF / CR -> LF), with no other field and no ignored line.
-// Shapes (number of messages, message lengths) are concrete per harness, message bytes symbolic ASCII.
+// The framing is an inline block of the async fn `send` (a harness over the whole `send` does not get through CBMC: measured, a response
+// with NO body already takes 3 min, one concrete message > 5 min).  The block is therefore EXTRACTED MECHANICALLY on every run: the lines
+// strictly between `while let Some(chunk) = stream.next().await {` and `conn.write_all(&chunk).await...` are copied verbatim into
+// `sse_frame` below (lib/vf.py //@extract; lost markers = exit 2).  Dropped by the extraction: the await points (stream.next(), write_all,
+// flush), the response head and the final `0 CRLF CRLF` write (appended by the harness as the code does after the loop).
+// Contract: for messages m_1..m_n the bytes frame(m_1) .. frame(m_n) 0 CRLF CRLF are a valid chunked body whose de-chunked content, read by
+// an event-stream parser written from the WHATWG algorithm, is exactly normalise(m_1)..normalise(m_n) (CRLF / CR -> LF), nothing else.
 use super::*;
-//@include spec/block_on.rs
-use vsupport::block_on;
-use std::pin::Pin;
-use std::task::{Context, Poll};
 
-fn stub_ts() -> u64 { 0 }
-
-/// scripted producer: yields the prepared messages one per poll, then ends
-struct Script { msgs: [Option<String>; 2], next: usize }
-impl Stream for Script {
-    type Item = String;
-    fn poll_next(mut self: Pin<&mut Self>, _: &mut Context<'_>) -> Poll<Option<String>> {
-        let i = self.next;
-        if i < 2 { self.next = i + 1; Poll::Ready(self.msgs[i].take()) } else { Poll::Ready(None) }
-    }
-}
-
-/// connection: records every write after the first one (the response head, whose length is kept)
-struct Sink { head_len: usize, writes: usize, buf: [u8; 96], len: usize }
-impl tokio::io::AsyncWrite for Sink {
-    fn poll_write(mut self: Pin<&mut Self>, _: &mut Context<'_>, b: &[u8]) -> Poll<std::io::Result<usize>> {
-        if self.writes == 0 { self.head_len = b.len(); }
-        else {
-            let mut i = 0;
-            while i < b.len() { let at = self.len; self.buf[at] = b[i]; self.len = at + 1; i += 1; }
-        }
-        self.writes += 1;
-        Poll::Ready(Ok(b.len()))
-    }
-    fn poll_flush(self: Pin<&mut Self>, _: &mut Context<'_>) -> Poll<std::io::Result<()>> { Poll::Ready(Ok(())) }
-    fn poll_shutdown(self: Pin<&mut Self>, _: &mut Context<'_>) -> Poll<std::io::Result<()>> { Poll::Ready(Ok(())) }
+fn sse_frame(chunk: String) -> Vec<u8> {
+    //@extract ohkami/src/response/mod.rs <<while let Some(chunk) = stream.next().await {>> <<conn.write_all(&chunk).await>>
+    chunk
 }
 
 fn hexval(c: u8) -> Option<usize> {
@@ -70,13 +44,13 @@ fn dechunk(wire: &[u8], out: &mut [u8; 96]) -> Option<usize> {
 }
 
 #[derive(Clone, Copy)]
-struct Events { count: usize, len: [usize; 3], data: [[u8; 8]; 3], foreign_line: bool, pending: bool }
+struct Events { count: usize, len: [usize; 3], data: [[u8; 16]; 3], foreign_line: bool, pending: bool }
 /// reference event-stream interpreter (WHATWG HTML §9.2.6), one pass over the content: lines end in CRLF, LF or CR; a line `data`[`:`[SP]value]
 /// appends value LF to the data buffer; an empty line dispatches the buffer (minus its last LF) if a data field was seen;
 /// any other non-empty line (comment, event/id/retry, unknown field) sets `foreign_line`.
 fn interpret(s: &[u8]) -> Events {
     const DATA: [u8; 4] = *b"data";
-    let mut ev = Events { count: 0, len: [0; 3], data: [[0; 8]; 3], foreign_line: false, pending: false };
+    let mut ev = Events { count: 0, len: [0; 3], data: [[0; 16]; 3], foreign_line: false, pending: false };
     let mut dbuf = [0u8; 16]; let (mut dlen, mut has_data) = (0usize, false);
     // per line: number of bytes, how much of "data" the name matched (5 = not `data`), whether the colon was seen, whether the optional space was skipped
     let (mut line_len, mut name, mut colon, mut value_bytes, mut prev_cr) = (0usize, 0usize, false, 0usize, false);
@@ -91,7 +65,7 @@ fn interpret(s: &[u8]) -> Events {
                 if has_data {
                     if dlen > 16 { ev.foreign_line = true; dlen = 16 }
                     let mut n = dlen; if n > 0 && dbuf[n - 1] == b'\n' { n -= 1 }
-                    if ev.count < 3 { ev.data[ev.count] = [dbuf[0], dbuf[1], dbuf[2], dbuf[3], dbuf[4], dbuf[5], dbuf[6], dbuf[7]]; ev.len[ev.count] = n; }
+                    if ev.count < 3 { ev.data[ev.count] = dbuf; ev.len[ev.count] = n; }
                     ev.count += 1;
                 }
                 dlen = 0; has_data = false;
@@ -134,35 +108,74 @@ fn message(len: usize, raw: &[u8; 3]) -> String {
 
 /// shape k: (number of messages, length of the first, length of the second)
 fn sse_body(k: usize) {
-    const SHAPES: [(usize, usize, usize); 8] = [(1, 0, 0), (1, 1, 0), (1, 2, 0), (1, 3, 0), (2, 1, 1), (2, 0, 1), (2, 2, 0), (0, 0, 0)];
+    const SHAPES: [(usize, usize, usize); 7] = [(1, 0, 0), (1, 1, 0), (1, 2, 0), (1, 3, 0), (2, 1, 1), (2, 0, 1), (2, 2, 0)];
     let (n, l0, l1) = SHAPES[k];
     let raw0: [u8; 3] = kani::any(); let raw1: [u8; 3] = kani::any();
     kani::assume(raw0[0] < 128 && raw0[1] < 128 && raw0[2] < 128 && raw1[0] < 128 && raw1[1] < 128 && raw1[2] < 128);
-    let script = Script { msgs: [if n >= 1 { Some(message(l0, &raw0)) } else { None }, if n >= 2 { Some(message(l1, &raw1)) } else { None }], next: 0 };
-    let mut res = Response::new(Status::OK);
-    res.set_stream_raw(Box::pin(script));
-    let mut sink = Sink { head_len: 0, writes: 0, buf: [0; 96], len: 0 };
-    let _ = block_on(res.send(&mut sink));
-    assert!(sink.writes >= 2 && sink.head_len > 0, "sse: the response head is written first");
-    let wire = &sink.buf[..sink.len];
+    let mut wire_buf = [0u8; 96]; let mut wl = 0usize;
+    let f0 = sse_frame(message(l0, &raw0));
+    let mut i = 0; while i < f0.len() { if wl < 96 { wire_buf[wl] = f0[i]; } wl += 1; i += 1; }
+    if n >= 2 {
+        let f1 = sse_frame(message(l1, &raw1));
+        let mut i = 0; while i < f1.len() { if wl < 96 { wire_buf[wl] = f1[i]; } wl += 1; i += 1; }
+        std::mem::forget(f1);
+    }
+    std::mem::forget(f0);
+    // what `send` writes after the loop
+    let end = b"0\r\n\r\n"; let mut i = 0; while i < 5 { if wl < 96 { wire_buf[wl] = end[i]; } wl += 1; i += 1; }
+    assert!(wl <= 96, "sse: frames of these messages fit the harness buffer");
+    let wire = &wire_buf[..wl];
     let mut content = [0u8; 96];
     let clen = dechunk(wire, &mut content);
-    assert!(clen.is_some(), "sse: the body is a valid chunked coding ending with the zero chunk");
+    assert!(clen.is_some(), "sse: each frame is `hex(size) CRLF size bytes CRLF`, so the body is a valid chunked coding");
     let ev = interpret(&content[..clen.unwrap()]);
     assert!(!ev.foreign_line, "sse: every line of the content is a `data` field (no injected event/id/retry field, no comment or unknown-field line)");
     assert!(!ev.pending, "sse: nothing is left undispatched at the end of the stream");
     assert!(ev.count == n, "sse: the parser decodes exactly as many messages as were produced (none lost, merged, split or duplicated)");
     let mut want = [0u8; 8];
-    if n >= 1 {
-        let wl = normalise(&raw0[..l0], &mut want);
-        assert!(ev.len[0] == wl, "sse: first message has the produced length (line breaks normalised)");
-        let mut i = 0; while i < wl { assert!(ev.data[0][i] == want[i], "sse: first message decodes to the produced text"); i += 1; }
-    }
+    let wl0 = normalise(&raw0[..l0], &mut want);
+    assert!(ev.len[0] == wl0, "sse: first message has the produced length (line breaks normalised)");
+    let mut i = 0; while i < wl0 { assert!(ev.data[0][i] == want[i], "sse: first message decodes to the produced text"); i += 1; }
     if n >= 2 {
-        let wl = normalise(&raw1[..l1], &mut want);
-        assert!(ev.len[1] == wl, "sse: second message has the produced length (line breaks normalised)");
-        let mut i = 0; while i < wl { assert!(ev.data[1][i] == want[i], "sse: second message decodes to the produced text"); i += 1; }
+        let wl1 = normalise(&raw1[..l1], &mut want);
+        assert!(ev.len[1] == wl1, "sse: second message has the produced length (line breaks normalised)");
+        let mut i = 0; while i < wl1 { assert!(ev.data[1][i] == want[i], "sse: second message decodes to the produced text"); i += 1; }
     }
-    kani::cover!(n == 0 || l0 == 0 || raw0[0] == b'\n');
+    kani::cover!(l0 == 0 || raw0[0] == b'\n');
 }
-//@chunks 8 c17_sse_framing_contract sse_body #[kani::proof] #[kani::unwind(40)] #[kani::stub(crate::util::unix_timestamp, stub_ts)]
+//@chunks 7 c17_sse_framing_contract sse_body #[kani::proof] #[kani::unwind(40)]
+
+/// the same contract on ENUMERATED CONCRETE message sequences (the symbolic shapes above need 20+ min each under CBMC and are not registered):
+/// empty message, single line, embedded LF, lone LF, trailing LF, two messages, empty then non-empty, field-like content, CR, CRLF, lone CR
+fn sse_concrete_body(k: usize) {
+    const SEQS: [&[&str]; 12] = [&[""], &["a"], &["a\nb"], &["\n"], &["ab\n"], &["a", "b"], &["", "x"], &["data: x"], &["a\rb"], &["a\r\nb"], &["\r"], &["x\revent: y"]];
+    let msgs = SEQS[k];
+    let mut wire_buf = [0u8; 96]; let mut wl = 0usize;
+    let mut m = 0;
+    while m < msgs.len() {
+        let f = sse_frame(String::from(msgs[m]));
+        let mut i = 0; while i < f.len() { if wl < 96 { wire_buf[wl] = f[i]; } wl += 1; i += 1; }
+        std::mem::forget(f);
+        m += 1;
+    }
+    let end = b"0\r\n\r\n"; let mut i = 0; while i < 5 { if wl < 96 { wire_buf[wl] = end[i]; } wl += 1; i += 1; }
+    assert!(wl <= 96, "sse: frames of these messages fit the harness buffer");
+    let mut content = [0u8; 96];
+    let clen = dechunk(&wire_buf[..wl], &mut content);
+    assert!(clen.is_some(), "sse: each frame is `hex(size) CRLF size bytes CRLF`, so the body is a valid chunked coding");
+    let ev = interpret(&content[..clen.unwrap()]);
+    assert!(!ev.foreign_line, "sse: every line of the content is a `data` field (no injected event/id/retry field, no comment or unknown-field line)");
+    assert!(!ev.pending, "sse: nothing is left undispatched at the end of the stream");
+    assert!(ev.count == msgs.len(), "sse: the parser decodes exactly as many messages as were produced (none lost, merged, split or duplicated)");
+    let mut m = 0;
+    while m < msgs.len() {
+        let mut want = [0u8; 16];
+        let b = msgs[m].as_bytes();
+        let (mut i, mut n) = (0, 0);
+        while i < b.len() { if b[i] == b'\r' { want[n] = b'\n'; n += 1; if i + 1 < b.len() && b[i + 1] == b'\n' { i += 1 } } else { want[n] = b[i]; n += 1; } i += 1; }
+        assert!(ev.len[m] == n, "sse: each message has the produced length (line breaks normalised to LF)");
+        let mut i = 0; while i < n && i < 16 { assert!(ev.data[m][i] == want[i], "sse: each message decodes to the produced text"); i += 1; }
+        m += 1;
+    }
+}
+//@chunks 12 c17_sse_framing_concrete sse_concrete_body #[kani::proof] #[kani::unwind(60)]
